@@ -164,9 +164,34 @@ func buildTarGz(ents []tarEnt) []byte {
 // alone against the link's own directory, lies outside the unpack directory (or is absolute
 // and outside it).  The unchanged code refuses such links; the known findings F3a / F3c are
 // about links that are each lexically inside.
-func lexicallyOutward(ents []tarEnt) bool {
+func lexicallyOutward(ents []tarEnt, named string) bool {
+	// only links that the written path passes through (or is) matter
+	var paths []string
+	if named != "" {
+		paths = []string{filepath.Clean(named)}
+	} else {
+		for _, e := range ents {
+			if e.typ == 'r' || e.typ == 'd' {
+				paths = append(paths, filepath.Clean(e.name))
+			}
+		}
+	}
+	onPath := func(link string) bool {
+		link = filepath.Clean(link)
+		for _, p := range paths {
+			if p == link || strings.HasPrefix(p, link+"/") {
+				return true
+			}
+		}
+		return false
+	}
 	for _, e := range ents {
-		if e.typ != 's' {
+		if e.typ == 'h' && onPath(e.name) {
+			return false // written through a hard link of the archive: the mechanism of F3b, whatever else the archive holds
+		}
+	}
+	for _, e := range ents {
+		if e.typ != 's' || !onPath(e.name) {
 			continue
 		}
 		if filepath.IsAbs(e.target) {
@@ -190,7 +215,7 @@ func lexicallyOutward(ents []tarEnt) bool {
 
 func classify(parent string, ents []tarEnt, named string) string {
 	w := classify0(parent, ents, named)
-	if (w == "named-through-archive-link" || w == "reg-through-archive-symlink") && lexicallyOutward(ents) {
+	if (w == "named-through-archive-link" || w == "reg-through-archive-symlink") && lexicallyOutward(ents, named) {
 		return w + "-that-points-outward"
 	}
 	return w
